@@ -1,5 +1,5 @@
 (* C10 -- Handling the same ClusterCIDR again has no additional effect. *)
-From NIPAM Require Import Sys Alloc_proofs Inv_proofs World_proofs Path_proofs Uniq_proofs.
+From NIPAM Require Import Sys Alloc_proofs Inv_proofs World_proofs Path_proofs Uniq_proofs Default_proofs.
 Open Scope N_scope.
 
 (* mapping is idempotent per name: whenever an entry of that name is already filed under the selector,
@@ -77,3 +77,33 @@ Theorem C10_after_deletion_nothing_allocatable_remains :
   reconcile_delete m o out = (m', r, fx) -> all_term_at m' k (o_name o).
 Proof. exact reconcile_delete_marks_terminating. Qed.
 Print Assumptions C10_after_deletion_nothing_allocatable_remains.
+
+(* "already picked up at start-up", the default ClusterCIDR: the object the controller builds from its --cluster-cidr flags is
+   added to the start-up listing only when no object of that name is listed -- so a restart that finds it adds no second
+   one -- and adding is idempotent *)
+Theorem C10_default_clustercidr_is_added_at_most_once :
+  forall dp ccs, with_default dp (with_default dp ccs) = with_default dp ccs.
+Proof. exact with_default_idem. Qed.
+Print Assumptions C10_default_clustercidr_is_added_at_most_once.
+
+Theorem C10_listed_default_clustercidr_is_kept :
+  forall dp ccs o, In o ccs -> o_name o = default_name -> with_default dp ccs = ccs.
+Proof. exact with_default_listed. Qed.
+Print Assumptions C10_listed_default_clustercidr_is_kept.
+
+(* and among the API objects of every history -- user creations, deletions, the controller's own writes and its Create of the
+   default ClusterCIDR, restarts -- every ClusterCIDR name occurs once: one object per name, hence (theorem above) one entry *)
+Theorem C10_one_object_per_name_in_every_history :
+  forall po lab ops, NoDup (map o_name (w_ccs (run po lab init_world ops))).
+Proof. exact clustercidr_names_unique_in_every_history. Qed.
+Print Assumptions C10_one_object_per_name_in_every_history.
+
+(* non-vacuity: started twice with dual-stack flags; the second start finds the object the first one created *)
+Example C10_default_clustercidr_nonvacuous :
+  let po0 : parse_oracle := fun _ => Some [] in
+  let lab0 : label_oracle := fun k => [cl k] in
+  let dp := [(mkCidr V4 167772160 24, 28%Z); (mkCidr V6 336294682933583715844663186250927177728 120, 124%Z)] in
+  let ops := [Construct None None [] dp; StartInformers; ProcCC UOk; Crash; Construct None None [] dp; StartInformers; ProcCC UOk] in
+  map (fun o => (o_name o, o_v4 o, o_hb o, o_fins o)) (w_ccs (run po0 lab0 init_world ops)) =
+    [(default_name, FOk (mkCidr V4 167772160 24), 4%Z, [finalizer])].
+Proof. vm_compute. reflexivity. Qed.
